@@ -21,7 +21,7 @@ def how(own):
         tags = m.group(1) if m else ''
         if tags == 'untagged':
             return 'failed safety / untagged obligation: ' + re.sub(r'^\s*failed obligation: ', '', fo[0])[:90]
-        return 'failed obligation `%s`' % tags.split()[0]
+        return 'failed obligation `%s`' % (tags.split() or ['?'])[0]
     if bw:
         why = ''
         if und:
